@@ -105,6 +105,14 @@ def run_property(prop: str, tier: str):
     samples = []
     assumed = sorted({k for k in seen if reg.contracts[k].trusted} | {k for k, c in reg.contracts.items() if c.trusted and any(k in getattr(r, 'called', ()) for r in [])})
     assumed = sorted({k for k, c in reg.contracts.items() if c.trusted and k in all_called})
+    unverified = []
+    for k in sorted(seen):
+        c = reg.contracts[k]
+        for o_, l in sorted(c.loops.items()):
+            if getattr(l, 'term_unverified', False):
+                unverified.append('termination of while loop %d of %s is not proved (%s)' % (o_, k, l.note or 'no variant'))
+        if c.may_raise:
+            unverified.append('absence of %s in %s is not proved (left to the bounded floor)' % ('/'.join(c.may_raise), k))
     for o in obligations:
         v, backend, secs, model = res[o.name]
         solver_seconds += secs
@@ -156,7 +164,7 @@ def run_property(prop: str, tier: str):
             errors.append('vacuous: every normal exit of %s is unreachable under its contract (contradictory requires / invariant)' % fn_)
     return {'functions': functions, 'n_obligations': n_obl, 'n_discharged': n_dis, 'failed': failed, 'unknown': unknown,
             'unsupported': unsupported, 'errors': errors, 'by_backend': by_backend, 'solver_seconds': round(solver_seconds, 2),
-            'samples': samples, 'assumed_contracts': assumed, 'cross_check': cross, 'proved_now': {k: sorted(v) for k, v in proved_now.items()}, 'wall_s': round(time.time() - t0, 2)}
+            'samples': samples, 'assumed_contracts': assumed, 'unverified': unverified, 'cross_check': cross, 'proved_now': {k: sorted(v) for k, v in proved_now.items()}, 'wall_s': round(time.time() - t0, 2)}
 
 
 def evidence(prop, tier, seed, pr, fl, violations, known_lines, undecided, checker_errors, wall):
@@ -172,7 +180,7 @@ def evidence(prop, tier, seed, pr, fl, violations, known_lines, undecided, check
         cov.update({
             'obligations': pr['n_obligations'], 'discharged': pr['n_discharged'],
             'checker_cmd': './check %s --tier %s' % (prop, tier),
-            'trusted_base': TRUSTED_BASE + ['assumed contract: ' + k for k in pr['assumed_contracts']],
+            'trusted_base': TRUSTED_BASE + ['assumed contract: ' + k for k in pr['assumed_contracts']] + ['unverified: ' + u for u in pr.get('unverified', [])],
             'functions_under_contract': pr['functions'], 'by_backend': pr['by_backend'],
             'solver_seconds': pr['solver_seconds'],
             'undischarged': [f['name'] for f in pr['failed']] + [u['name'] for u in pr['unknown']],
